@@ -17,6 +17,7 @@ import os
 import numpy as np
 
 from mc.engine import core
+from mc.engine.canon import jsonable
 from mc.models import c19_ref as ref
 
 PROPERTY = 'C19'
@@ -34,6 +35,9 @@ RULE = (
   'PartitionSpec). Non-trivial = the tuple has a named dimension and the nest a named level '
   '(a misplaced entry is then visible); distinct = distinct (flavour, partition names, nest, '
   'names, phase). '
+  'part IO: nn.scan / nn.vmap with In(ka) / plain kp / Out(km) collections for every (ka, kp, km) '
+  'in {0,1}^3 x 3 orders of the variable_axes mapping: each collection gets the level name at its '
+  'own axis, an In collection is seen inside as one un-named slice. '
   'part R: every names tuple of rank <= 3 over {a,b,c,None} (repeated names included: they must '
   'raise) x every ordered rule list (repetition allowed) up to the tier length over 12 rules '
   '{a,b,c} x {x, y, (x,y), None}, via rules= and via the logical_axis_rules context. Distinct = '
@@ -152,12 +156,13 @@ def units(tier, seed):
                          cfgs=[dict(kinds=list(kinds), ks=[-k]) for k in range(1, rank + 2)],
                          variants=[['part', None], ['legacy', None]] if group == 'linen'
                          else [['int', None]]))
+  ios = [dict(part='IO', kind=k, names='io') for k in ('scan', 'vmap')]
   rs = [dict(part='R', first=first, max_len=4 if th else 3) for first in range(len(ref.RULES))]
   # heavy transform units first, but one unit of every kind among the first six (the
   # evidence shows one sample of each of the first units)
   shorts = [u for u in us if u['names'] == 'short']
   full = [u for u in us if u['names'] == 'full']
-  return full[:2] + rs[:1] + shorts[:2] + full[2:] + shorts[2:] + rs[1:]
+  return full[:2] + rs[:1] + shorts[:2] + full[2:] + shorts[2:] + rs[1:] + ios
 
 
 def setup_worker():
@@ -618,11 +623,89 @@ def _run_R(ctx, unit):
 # ---------------------------------------------------------------------------
 
 
+def _run_io(res, kind):
+  """nn.scan / nn.vmap whose variable_axes use the In / Out markers next to a plain axis: an
+  In(ka) collection comes in stacked along ka (and is seen inside without the level's name), a
+  plain collection is stacked along kp, an Out(km) collection is created inside and stacked
+  along km; each gets the partition name at *its own* axis. Every (ka, kp, km) in {0,1}^3 x
+  three orders of the variable_axes mapping."""
+  import itertools
+  import jax
+  import jax.numpy as jnp
+  import flax.linen as nn
+  from flax.core import lift, meta
+  L = 3
+  seen = []
+
+  def names_of(b):
+    return (tuple(b.names), tuple(b.value.shape)) if isinstance(b, meta.AxisMetadata) else \
+        ('unboxed', tuple(np.shape(b)))
+
+  class Body(nn.Module):
+    @nn.compact
+    def __call__(self, c, x):
+      p = self.param('p', nn.with_partitioning(lambda k, sh: jnp.ones(sh), ('a',)), (2,))
+      seen.append(('t',) + names_of(self.get_variable('consts', 't')))
+      t = self.variable('consts', 't', None).value
+      self.variable('memo', 'm', nn.with_partitioning(lambda: x * jnp.ones((2,)), ('b',)))
+      seen.append(('m',) + names_of(self.get_variable('memo', 'm')))
+      y = x * p.sum() + t.sum()
+      return c + y, y
+
+  for ka, kp, km in itertools.product((0, 1), repeat=3):
+    for order in (('consts', 'params', 'memo'), ('params', 'consts', 'memo'),
+                  ('memo', 'params', 'consts')):
+      ax = {'consts': lift.In(ka), 'params': kp, 'memo': lift.Out(km)}
+      axes = {k: ax[k] for k in order}
+      cfg = dict(kind=kind, consts_in=ka, params=kp, memo_out=km, order=list(order))
+      key = f'io|{kind}|{ka}{kp}{km}|{"-".join(order)}'
+      mp = {nn.PARTITION_NAME: 'L0'}
+      if kind == 'scan':
+        T = nn.scan(Body, variable_axes=axes, split_rngs={'params': True}, in_axes=0, out_axes=0,
+                    length=L, metadata_params=mp)
+        c0 = jnp.zeros(())
+      else:
+        T = nn.vmap(Body, variable_axes=axes, split_rngs={'params': True}, in_axes=0, out_axes=0,
+                    axis_size=L, metadata_params=mp)
+        c0 = jnp.zeros((L,))
+      tv = jnp.arange(L * 2, dtype=jnp.float32).reshape((L, 2) if ka == 0 else (2, L))
+      box = meta.Partitioned(tv, names=ref.insert(('z',), ka, 'L0'))
+      del seen[:]
+      res['evals'] += 1
+      try:
+        _, upd = T().apply({'consts': {'t': box}}, c0, jnp.arange(L, dtype=jnp.float32),
+                           rngs={'params': jax.random.key(0)}, mutable=['params', 'memo'])
+      except Exception as e:  # noqa
+        core.violation(res, 'io-raises|' + key, f'{type(e).__name__}: {e}'[:300], cfg)
+        continue
+      exp = {'p': (ref.insert(('a',), kp, 'L0'), ref.insert((2,), kp, L)),
+             'm': (ref.insert(('b',), km, 'L0'), ref.insert((2,), km, L))}
+      got = {'p': names_of(upd['params']['p']), 'm': names_of(upd.get('memo', {}).get('m'))}
+      for nm in ('p', 'm'):
+        if got[nm] != exp[nm]:
+          core.violation(res, f'io-names|{key}|{nm}',
+                         f'after the transform, names / shape of {nm!r} are {got[nm]} but the level '
+                         f'name belongs at the axis declared for its own collection: {exp[nm]}',
+                         cfg, observed=jsonable(got[nm]), expected=jsonable(exp[nm]))
+      inside_t = {e for e in seen if e[0] == 't'}
+      if inside_t != {('t', ('z',), (2,))}:
+        core.violation(res, f'io-inside|{key}', 'inside the body an In(...) collection is not seen '
+                       'as one slice without the level name', cfg, observed=jsonable(sorted(inside_t)))
+      if 'consts' in upd:
+        core.violation(res, f'io-in-returned|{key}', 'an In(...) collection was returned', cfg)
+      core.outcome(res, f'io:{kind}:ok')
+      res['nontrivial'].append(core.h(key))
+  res['samples'].append(dict(part='IO', kind=kind))
+
+
 def run_unit(unit):
   res = core.new_result()
   ctx = _Ctx(res)
   if unit['part'] == 'R':
     _run_R(ctx, unit)
+    return res
+  if unit['part'] == 'IO':
+    _run_io(res, unit['kind'])
     return res
   seed = int(os.environ.get('VERIF_SEED', '0'))
   rank = unit['rank']
